@@ -67,6 +67,8 @@ type Options struct {
 	MaxSteps   int  // stop logging Step events of a run after this many (Faults are always logged)
 	MaxFrames  int  // stop logging Enter/Exit pairs of a run after this many frames
 	MaxFaults  int  // stop logging Fault events of a run after this many
+	StepBound  bool // emit one StepBound event when MaxSteps is reached (monitors that chain steps stop judging the run there)
+	HardSteps  int  // executed steps of a run after which Cancel is called (runaway guard), 0 = none
 	EnterExtra func(f *vm.VerifFrame) map[string]interface{}
 	ExitExtra  func(f *vm.VerifFrame, err error, logs []*types.Log) map[string]interface{}
 	StepFilter func(depth int, op byte) bool // when set, only steps it accepts are logged
@@ -111,8 +113,11 @@ type Recorder struct {
 	FramesLogged int
 	FaultsLogged int
 	FramesSeen   int
-	Truncated    bool // some step or frame of the current run was not logged
-	PanicOp      int  // opcode whose execute did not return (a panic unwound the frame), else -1
+	Truncated    bool   // some step or frame of the current run was not logged
+	PanicOp      int    // opcode whose execute did not return (a panic unwound the frame), else -1
+	Cancel       func() // aborts the running EVM (EVM.Cancel); called once when HardSteps is exceeded
+	Cancelled    bool
+	boundSaid    bool
 	// statistics over the whole life of the recorder
 	OpCount    map[int]int
 	FaultCount map[string]int
@@ -136,6 +141,7 @@ func (r *Recorder) BeginRun(id int) {
 	r.Steps, r.Logged, r.Run = 0, 0, id
 	r.FramesLogged, r.FramesSeen, r.Truncated, r.FaultsLogged = 0, 0, false, 0
 	r.PanicOp = -1
+	r.Cancelled, r.boundSaid = false, false
 	r.LastStack, r.LastMem = [][]int{}, nil
 }
 
@@ -222,6 +228,12 @@ func (r *Recorder) StepFetched(s *vm.VerifStep) {
 	}
 	r.Steps++
 	fr.steps++
+	if r.Opt.HardSteps > 0 && r.Steps > r.Opt.HardSteps && !r.Cancelled {
+		r.Cancelled = true
+		if r.Cancel != nil {
+			r.Cancel()
+		}
+	}
 	r.OpCount[int(s.Op)]++
 	p := &pending{pc: int(s.Pc), op: int(s.Op), g0: s.Gas, sl0: len(s.Stack), ml0: len(s.Mem), ro: s.ReadOnly, pg: fr.lastGas}
 	if r.Opt.Values {
@@ -293,6 +305,10 @@ func (r *Recorder) flush(fr *frame, npc int, exitErr error, ret []byte, gasNow u
 		// completed steps that will not be logged: decide before building the event
 		if r.Opt.MaxSteps > 0 && r.Logged >= r.Opt.MaxSteps {
 			r.Truncated = true
+			if r.Opt.StepBound && !r.boundSaid {
+				r.boundSaid = true
+				r.T.Emit(map[string]interface{}{"event": "StepBound", "run": r.Run, "depth": fr.depth, "logged": r.Logged})
+			}
 			return
 		}
 		if r.Opt.StepFilter != nil && !r.Opt.StepFilter(fr.depth, byte(p.op)) {
